@@ -11,6 +11,7 @@ Copyright (c) 2008, 2009 Centre national de la recherche scientifique (CNRS)
 #include <cassert>
 #include <climits>
 #include <cstdint>
+#include <mutex>
 #include <optional>
 #include <stack>
 #include <string>
@@ -75,6 +76,7 @@ class FastRational
 {
     class mpqPool
     {
+        std::mutex mtx; // the pool is shared by all threads of the process
         std::stack<mpq_class> store; // uses deque as storage to avoid realloc
         std::stack<mpq_ptr, std::vector<mpq_ptr>> pool;
     public:
